@@ -140,3 +140,12 @@ _add(PropertySpec(
     not_decided=["representation invariants of the three tables and the decode contracts (_decode_thl_table, _decode_spfs_table, _decode_uspfs_table): NOT discharged, bounded stand-in only",
                  "multifurcating inputs: see C08"],
 ))
+
+_add(PropertySpec(
+    "C08", files=["compute_super"],
+    targets=[f"{DP}:Entry.update"],
+    level="exploration", standins=["binarize:each-binary-refinement-exactly-once", "ReconciliationInput.binarize:refined-inputs", "extended-solvers:optimum-over-all-refinements"],
+    technique="bounded stand-in (refinement enumerator exhaustive over tree shapes <= 5/6 leaves against an independent generator; refined inputs; extended solvers on multifurcating inputs against the optimum over all refinements); "
+              "of the cone only Entry.update (the result entry that collects the candidates of every refinement) is proved",
+    not_decided=["binarize / arrange_leaves / graft, ReconciliationInput.binarize, label_internal (ete3 copy / Newick re-parsing) and the outer loops of _spfs / _uspfs: NOT discharged, bounded stand-in only"],
+))
